@@ -513,39 +513,105 @@ def ag_static_graph(eng, res, rule="R-AG-STATIC-GRAPH"):
     res.ob(rule, f, "nodes-copied", "every atom of the stochastic graph is a node of the static template with its attributes", f.node, e is not None)
 
 
+def _const_dict(mod, name):
+    """module-level `NAME = {"k": <const>, ...}` -> {k: value}, else None"""
+    for st in mod.tree.body:
+        if isinstance(st, ast.Assign) and len(st.targets) == 1 and isinstance(st.targets[0], ast.Name) and st.targets[0].id == name and isinstance(st.value, ast.Dict):
+            out = {}
+            for k, v in zip(st.value.keys, st.value.values):
+                if not (isinstance(k, ast.Constant) and isinstance(k.value, str)):
+                    return None
+                out[k.value] = v.value if isinstance(v, ast.Constant) else "?"
+            return out
+        if isinstance(st, ast.Assign) and len(st.targets) == 1 and isinstance(st.targets[0], ast.Name) and st.targets[0].id == name and isinstance(st.value, ast.Call) and callee_name(st.value) == "dict" and not st.value.args:
+            return {k.arg: (k.value.value if isinstance(k.value, ast.Constant) else "?") for k in st.value.keywords if k.arg}
+    return None
+
+
+def _effective_flags(eng, f, c, add_node):
+    """[(function, call, {flag: True / False / '?'})] — the permissions an `_add_node` call ends up with.  Flags that are
+    not written at the call come from `_add_node`'s defaults; `**CONST` is read from the module-level table; a wrapper that
+    forwards its own `**kwargs` is resolved at each of the wrapper's call sites."""
+    names = add_node.params[1:]
+    a = add_node.node.args
+    pos = [x.arg for x in a.posonlyargs + a.args]
+    defaults = {}
+    for nm, d in zip(pos[len(pos) - len(a.defaults):], a.defaults):
+        defaults[nm] = d.value if isinstance(d, ast.Constant) else "?"
+    for nm, d in zip([x.arg for x in a.kwonlyargs], a.kw_defaults):
+        if d is not None:
+            defaults[nm] = d.value if isinstance(d, ast.Constant) else "?"
+    wanted = [nm for nm in names if nm.endswith("_allowed")]
+
+    def read(call, owner, forward_depth):
+        vals = {}
+        for i, x in enumerate(call.args):
+            # positional arguments of a *direct* _add_node call
+            if forward_depth == 0 and i < len(names):
+                vals[names[i]] = x.value if isinstance(x, ast.Constant) else "?"
+        fwd = False
+        for k in call.keywords:
+            if k.arg is not None:
+                if k.arg in wanted:
+                    vals[k.arg] = k.value.value if isinstance(k.value, ast.Constant) else "?"
+            elif isinstance(k.value, ast.Name):
+                tab = _const_dict(owner.module, k.value.id)
+                if tab is not None:
+                    for kk, vv in tab.items():
+                        if kk in wanted:
+                            vals[kk] = vv
+                elif owner.node.args.kwarg is not None and owner.node.args.kwarg.arg == k.value.id:
+                    fwd = True
+                else:
+                    for w in wanted:
+                        vals.setdefault(w, "?")
+            else:
+                for w in wanted:
+                    vals.setdefault(w, "?")
+        return vals, fwd
+
+    vals, fwd = read(c, f, 0)
+    if not fwd:
+        return [(f, c, {w: vals.get(w, defaults.get(w, "?")) for w in wanted})]
+    out = []
+    for g in methods(eng):
+        for c2 in calls(g, f.name):
+            v2, fwd2 = read(c2, g, 1)
+            merged = dict(vals)
+            merged.update(v2)
+            if fwd2:
+                for w in wanted:
+                    merged.setdefault(w, "?")
+            out.append((g, c2, {w: merged.get(w, defaults.get(w, "?")) for w in wanted}))
+    return out
+
+
 def ag_entry_flags(eng, res, rule="R-AG-ENTRY-FLAGS"):
     """An atom entered over a stochastic / termination / transition edge arrives through one of its descriptors: it
     offers none of its own links (all three permissions False).  The start atom and the atoms added by the static
     completion have used none: they offer all three."""
     res.doc(rule, "an atom entered over a non-static edge offers none of its own links (the entering descriptor is used up); start / static-completion atoms offer all")
     n = 0
+    add_node = eng.prog.func(f"{CLS}._add_node")
     for f in methods(eng):
         if f.name == "_add_node":
             continue
-        fl = eng.flow(f)
         for c in calls(f, "_add_node"):
             st = c
             while not isinstance(st, ast.stmt):
                 st = st._parent
             var = st.targets[0].id if isinstance(st, ast.Assign) and isinstance(st.targets[0], ast.Name) else None
-            flags = {}
-            callee = eng.prog.func(f"{CLS}._add_node")
-            names = callee.params[1:]
-            for i, a in enumerate(c.args):
-                if i < len(names):
-                    flags[names[i]] = a
-            for k in c.keywords:
-                flags[k.arg] = k.value
-            vals = {k: (v.value if isinstance(v, ast.Constant) else "?") for k, v in flags.items() if k.endswith("_allowed")}
             # entered over a link: the new id is an endpoint of a bond created in this function
             carriers = _carriers(f, {var}) if var else set()
             entered = any(any(isinstance(a, ast.Name) and a.id in carriers for a in e.args[:2]) for e in calls(f, "add_edge") if src(e.func.value) == "self.graph") and f.name != "_fill_static_edges"
             want = (not entered)
-            ok = len(vals) == 3 and all(v is want for v in vals.values())
-            n += 1
-            res.unit(f)
-            res.ob(rule, f, f"flags:{f.name}@{n}", ("an atom entered over a link is added with all three permissions False" if entered else "a start / static-completion atom is added with all three permissions True"),
-                   c, ok, f"{vals}")
+            for g, c2, vals in _effective_flags(eng, f, c, add_node):
+                ok = len(vals) == 3 and all(v is want for v in vals.values())
+                n += 1
+                res.unit(g)
+                via = "" if g is f else f" (through {f.name})"
+                res.ob(rule, g, f"flags:{g.name}@{n}", ("an atom entered over a link is added with all three permissions False" if entered else "a start / static-completion atom is added with all three permissions True") + via,
+                       c2, ok, f"{vals}")
     res.floor(rule, n, 5)
 
 
